@@ -63,6 +63,6 @@ for d in "$VERIF"/harness/*/; do
 done
 if [ $fail -ne 0 ]; then echo "build.sh: compile failed" >&2; rm -rf "$OUT"; exit 2; fi
 touch "$OUT/ok"
-# keep only the three newest builds
-ls -1dt "$VERIF"/.build/*/ 2>/dev/null | tail -n +4 | xargs -r rm -rf
+# keep only the twelve newest builds (mutation trials build several trees side by side)
+ls -1dt "$VERIF"/.build/*/ 2>/dev/null | tail -n +13 | xargs -r rm -rf
 echo "$OUT"
